@@ -136,16 +136,19 @@ pub fn run(cat: &Catalog, cfg: &Config, stats: &mut Stats, run_seed: u64) -> Vec
 
     // ---- workload: writes and syncs --------------------------------------------------------------
     let gen = Gen::new(&cat.reg, size);
+    let mut bgen = Gen::new(&cat.reg, size);
+    bgen.boundary = true;
     let mut records: Vec<Record> = Vec::new();
     let mut synced = 0usize;
     for _ in 0..nrec {
         run.stats.events += 1;
         let ei = *sc.pick(&types);
         let e = &cat.entries[ei];
-        let val = gen.val(&e.ty, &mut wl);
+        let boundary = peer_writers && sc.chance(1, 12);
+        let val = if boundary { bgen.val(&e.ty, &mut wl) } else { gen.val(&e.ty, &mut wl) };
         // one writer in four is the reference peer: a conforming writer that is not this library
         // (unknown-length sequences, over-long varints)
-        let peer = peer_writers && sc.chance(1, 4);
+        let peer = boundary || (peer_writers && sc.chance(1, 4));
         let encoded = if peer {
             run.stats.count("writer.reference_peer");
             Some(model::enc::ref_encode(&cat.reg, &e.ty, &val, model::enc::Forms::mixed(wl.derive("forms"))))
@@ -174,7 +177,13 @@ pub fn run(cat: &Catalog, cfg: &Config, stats: &mut Stats, run_seed: u64) -> Vec
             bytes,
             marks,
             durable: false,
-            damaged: None,
+            // boundary values are judged by the total / no-invention clauses only
+            damaged: if boundary {
+                run.stats.count("fault_configured.P-boundary");
+                Some((FaultKind::Boundary, "the reference peer wrote parts at the edge of their type".into()))
+            } else {
+                None
+            },
         });
         if sc.chance(1, 3) {
             run.stats.events += 1;
